@@ -61,7 +61,8 @@ def weighted(*pairs):
 
 
 # mostly printable ASCII, some text outside it (2- to 4-byte UTF-8 sequences)
-CHARS = ASCII * 6 + u"\u00e9\u00fc\u00df\u0142\u03a9\u0416\u05d0\u4e2d\u6f22\u20ac\U0001f511"
+# ... and combining marks / singletons, so that texts occur that are not in a Unicode normal form
+CHARS = ASCII * 6 + u"\u00e9\u00fc\u00df\u0142\u03a9\u0416\u05d0\u4e2d\u6f22\u20ac\U0001f511e\u0301\u030a\u212b\u2126"
 txt = st.text(alphabet=CHARS, min_size=0, max_size=20)
 txt1 = st.text(alphabet=CHARS, min_size=1, max_size=20)
 long_txt = st.text(alphabet=ASCII, min_size=200, max_size=300)
